@@ -43,8 +43,8 @@ def pair(g: int, h: int, bx: int, x: int, y: int, sh: int, z: int, k: int, i1: i
 
 
 T1 = [7, 8, 9, 11]          # value edits of S.a / S.b
-T2 = [12, 13, 15, 18, 28, 27]  # formula / rename / cache-flag edits
-T3 = [0, 1, 2, 29, 4, 24]    # reference changes
+T2 = [12, 13, 15, 18, 28, 27, 39]  # formula / rename / cache-flag edits
+T3 = [0, 1, 2, 29, 4, 24, 36]    # reference changes
 
 
 @harness
@@ -90,7 +90,7 @@ QUERIES = [
 QUERIES.append(
     Query("triple", triple, pre=["0 <= i1 < %d" % len(T1), "0 <= i2 < %d" % len(T2), "0 <= i3 < %d" % len(T3), "0 <= ev < 8"],
           partitions=lambda tier, seed: [dict(i1=a, i2=b, ev=7 if tier == "quick" else [0, 7]) for a in range(len(T1)) for b in range(len(T2))],
-          natives=[dict(_V, i1=a, v1=77, i2=b, i3=c, v3=88, ev=7) for (a, b, c) in ((0, 0, 0), (1, 3, 1), (2, 1, 3), (3, 2, 2), (0, 4, 0), (1, 5, 4))],
+          natives=[dict(_V, i1=a, v1=77, i2=b, i3=c, v3=88, ev=7) for (a, b, c) in ((0, 0, 0), (1, 3, 1), (2, 1, 3), (3, 2, 2), (0, 4, 0), (1, 5, 4), (0, 6, 6), (2, 6, 0))],
           bounds=lambda tier: {"history": "[eval] ; value edit ; [eval] ; definition edit ; [eval] ; reference change ; observe", "value_edits": [EDITS[e][0] for e in T1],
                                "definition_edits": [EDITS[e][0] for e in T2], "reference_changes": [EDITS[e][0] for e in T3], "evaluations": "all three gaps (quick) / every subset (thorough)"},
           outside=["triples outside the three families"]))
